@@ -137,7 +137,9 @@ def bounded_close(T, rng, n, only=None):
                 if self.timeout is not None and self.dt > self.timeout:
                     import socket as _s
                     raise _s.timeout("timed out")
-                fr = server_frame(2, b"noise")
+                # whole messages, or the never-ending fragments of one streamed message
+                self.nchat = getattr(self, "nchat", 0) + 1
+                fr = server_frame(2, b"noise") if not getattr(self, "frag", False) else server_frame(2 if self.nchat == 1 else 0, b"part", fin=0)
                 self.log.append(("r", n_))
                 self.pend = getattr(self, "pend", b"") or fr
                 out, self.pend = self.pend[:n_], self.pend[n_:]
@@ -160,6 +162,7 @@ def bounded_close(T, rng, n, only=None):
                 sock_timeout = rng.choice([None, None, 1, 10, 0.2])
             s = TimedSock([])
             s.chatter, s.dt, s.hs_done = chatter, dt, False
+            s.frag = (only or {}).get("frag", bool(chatter and i % 2))
             s.timeout = sock_timeout
             s.t_start, s.runaway = Clock.now, False
             s.silence_after = True
@@ -174,7 +177,7 @@ def bounded_close(T, rng, n, only=None):
                 if getattr(s, "blocked_forever", False):
                     raise BlocksForever("swallowed inside close()")
             except BlocksForever:
-                T.fail("spec", {"kind": "bounded", "timeout": timeout, "dt": dt, "chatter": s.chatter, "sock_timeout": sock_timeout},
+                T.fail("spec", {"kind": "bounded", "timeout": timeout, "dt": dt, "chatter": s.chatter, "sock_timeout": sock_timeout, "frag": s.frag},
                        f"close(timeout={timeout}) returns", "it reads from the transport with no timeout set while the server is silent: it never returns",
                        {"site": "close", "cls": "close-blocks-forever"})
                 return
@@ -183,7 +186,7 @@ def bounded_close(T, rng, n, only=None):
                    sample={"timeout": timeout, "frame_interval": dt, "chatter": s.chatter, "virtual_elapsed": round(el, 2)})
             bound = timeout + max(timeout, dt) + 1e-9
             if el > bound or ws.sock is not None:
-                T.fail("spec", {"kind": "bounded", "timeout": timeout, "dt": dt, "chatter": s.chatter, "sock_timeout": sock_timeout},
+                T.fail("spec", {"kind": "bounded", "timeout": timeout, "dt": dt, "chatter": s.chatter, "sock_timeout": sock_timeout, "frag": s.frag},
                        f"returns within {bound}s of virtual time with the transport released", f"{el}s sock={ws.sock}",
                        {"site": "close", "cls": "close-not-bounded"})
                 return
@@ -201,7 +204,7 @@ def write_faults(T):
                 evs = [("D", server_frame(8, b"\x03\xe8"))] if first == "auto-reply" else []
                 ws, s = connected_ws(evs)
                 s.silence_after = False
-                base = getattr(s, "nsend", 0)
+                base = getattr(s, "send_calls", 0)
                 s.send_faults = {base + 1: (part, how)}
                 res = []
                 for call in ((lambda: ws.send_close()) if first == "send_close" else (lambda: ws.recv()), lambda: ws.close(), lambda: ws.close()):
